@@ -2,6 +2,7 @@ package props
 
 import (
 	"fmt"
+	"strconv"
 
 	"verifsim/engine"
 )
@@ -30,7 +31,7 @@ func (c22) Describe() engine.Info {
 		Rule: "scenario = 50..400 events over {key down/up for each of the 8 keys (delivered through the simulated display), JOYP write of any value, JOYP read} 0..200 cycles apart. Oracle: reference joypad (bits 6-7 read 1, bits 4-5 as last written, low nibble = AND of the selected groups' lines, all 1s when none is selected, pressing a direction releases its opposite). Signature = reached controller state (select bits, direction lines, button lines): the reachable space has 4 x 9 x 16 = 576 states." +
 			" A third of the walks also start DMA transfers and switch LCD, sound and timer while JOYP is polled.",
 		Assumptions:    []string{"breadth-first enumeration named in the quantifier is model checking; random walks are used instead and the number of distinct states reached is reported", "the joypad interrupt is never raised by this emulator and is not part of the statement"},
-		RequiredProbes: []string{"both_groups_selected_read", "opposite_direction_pressed", "no_group_selected_read", "dma_started_during_the_walk", "more_than_16_key_events_between_reads", "read_after_a_minute_of_holding"},
+		RequiredProbes: []string{"both_groups_selected_read", "opposite_direction_pressed", "no_group_selected_read", "dma_started_during_the_walk", "more_than_16_key_events_between_reads", "storm_of_65536_events_between_reads", "read_after_a_minute_of_holding"},
 		RealComponents: realComponents, StubComponents: stubComponents,
 	}
 }
@@ -78,6 +79,23 @@ func (c22) Generate(r *engine.Rand, index int, tier string) *engine.Scenario {
 				sc.Events = append(sc.Events, engine.Event{At: at, K: "key", A: uint16(r.Intn(8)), V: uint8(r.Intn(2))})
 			}
 		}
+		if index%16 == 10 && r.Chance(1, 40) {
+			// a storm between two reads: a key's auto-repeat (the same key reported down N times, then
+			// released) or N events in all (one key change that shows, then presses and releases of
+			// another key and rewrites of the select bits), N around the powers of two at which counters wrap
+			n := engine.Pick(r, []int{255, 256, 257, 511, 512, 513, 1024})
+			if r.Chance(1, 3) {
+				n = engine.Pick(r, []int{65535, 65536, 65537, 131072})
+			}
+			sc.Class = "walk-storm"
+			sc.SetP("sparse", 1)
+			at++
+			sc.Events = append(sc.Events, engine.Event{At: at, K: "bus_r", A: 0xff00})
+			at++
+			sc.Events = append(sc.Events, engine.Event{At: at, K: "storm", A: uint16(r.Intn(8)), V: uint8(r.Intn(2)), S: fmt.Sprint(n)})
+			at++
+			sc.Events = append(sc.Events, engine.Event{At: at, K: "bus_r", A: 0xff00})
+		}
 		if index%3 == 1 && r.Chance(1, 12) {
 			// the rest of the machine is busy: an OAM DMA transfer in flight, the LCD or the sound unit
 			// switched, the timer reprogrammed - JOYP reflects the keys and the select bits regardless
@@ -88,6 +106,15 @@ func (c22) Generate(r *engine.Rand, index int, tier string) *engine.Scenario {
 	}
 	sc.Cycles = at + 4
 	return sc
+}
+
+// dirsBtnsDown reports whether key b is held according to the reference lines (0 = held).
+func dirsBtnsDown(dirs, btns uint8, b int) bool {
+	bit := []uint8{0x04, 0x08, 0x02, 0x01, 0x01, 0x02, 0x08, 0x04}[b]
+	if b < 4 {
+		return dirs&bit == 0
+	}
+	return btns&bit == 0
 }
 
 func (c22) Execute(sc *engine.Scenario) *engine.Result {
@@ -180,6 +207,44 @@ func (c22) Execute(sc *engine.Scenario) *engine.Result {
 						res.Probe("more_than_16_key_events_between_reads")
 					}
 				}
+			case "storm":
+				n, _ := strconv.Atoi(ev.S)
+				if n > 1<<18 {
+					n = 1 << 18
+				}
+				key := int(ev.A & 7)
+				res.Fault("key_storm")
+				if n >= 65536 {
+					res.Probe("storm_of_65536_events_between_reads")
+				}
+				if ev.V == 0 {
+					// auto-repeat: N presses of one key, then its release
+					for i := 0; i < n; i++ {
+						m.Key(controllerButton(key), true)
+						press(key, true)
+					}
+					m.Key(controllerButton(key), false)
+					press(key, false)
+				} else {
+					// N events in all, the first of which changes what JOYP shows
+					down := dirsBtnsDown(dirs, btns, key)
+					m.Key(controllerButton(key), !down)
+					press(key, !down)
+					other := (key + 1 + n%3) & 7
+					for i := 1; i < n; i++ {
+						switch i % 3 {
+						case 0:
+							m.Write(0xff00, sel)
+						case 1:
+							m.Key(controllerButton(other), true)
+							press(other, true)
+						default:
+							m.Key(controllerButton(other), false)
+							press(other, false)
+						}
+					}
+				}
+				sinceRead += n
 			case "bus_w":
 				if ev.A != 0xff00 {
 					m.Write(ev.A, ev.V)
